@@ -57,6 +57,23 @@ def cond_programs(tier, seed):
     for neg in (False, True):
         items = [Use('A', None, ' '), T('m', '\n'), Cond(neg, [('B', [Use('A', None, '\n')])], [T('e', '\n')]), T('z', '\n')]
         progs.append(Prog('use/%s' % ('ifndef' if neg else 'ifdef'), items, ['A', 'B']))
+    # empty branch bodies, consecutive chains, nested chains inside dead/live branches (bodies may be empty)
+    bodies = [lambda k: [], lambda k: [T('t%d' % k, '\n')]]
+    k = 0
+    for neg1, neg2 in itertools.product((False, True), repeat=2):
+        for b1, b2, b3 in itertools.product((0, 1), repeat=3):
+            k += 1
+            first = Cond(neg1, [('A', bodies[b1](1))], bodies[b2](2) if b3 else None)
+            inner = Cond(neg2, [('B', bodies[b2](3))], bodies[b1](4))
+            second = Cond(neg2, [('B', [T('o1', '\n'), inner, T('o2', '\n')])], [T('e1', '\n'), Cond(neg1, [('A', bodies[b3](5))], None), T('e2', '\n')])
+            progs.append(Prog('empty/%d%d/%d%d%d' % (neg1, neg2, b1, b2, b3), [first, T('m', '\n'), second, T('z', '\n')], ['A', 'B']))
+    # definitions through macro bodies observed by conditionals
+    progs.append(Prog('via-macro/undef', [Def('DROP', '`undef A', body_items=[Undef('A')]), Use('DROP', None, '\n'),
+                                          Cond(False, [('A', [T('yA', '\n')])], [T('nA', '\n')])], ['A', 'B']))
+    progs.append(Prog('via-macro/define', [Def('MK', '`define B zz', body_items=[Def('B', 'zz')]), Use('MK', None, '\n'),
+                                           Cond(True, [('B', [T('nB', '\n')])], [T('yB', '\n')])], ['A', 'B']))
+    progs.append(Prog('via-macro/in-dead', [Def('MK', '`define B zz', body_items=[Def('B', 'zz')]), Cond(False, [('A', [Use('MK', None, '\n')])], None),
+                                            Cond(False, [('B', [T('yB', '\n')])], [T('nB', '\n')])], ['A', 'B']))
     if tier == 'thorough':
         rnd = random.Random(seed)
         # nesting depth 2, exhaustive over inner/outer names for ifdef/ifndef
